@@ -115,6 +115,22 @@ def arms(block, fn=None):
     return out
 
 
+def rest_keeps_no_copies(prog, rep, rule):
+    from .c10 import shared_state_writes
+    ALLOWED = {('yabgp.api.v1.root', 'writes cfg.CONF.keep_alive.last_time')}      # liveness stamp, not peer state
+    nfun, hits = shared_state_writes(prog, lambda fn: fn.module.name.startswith('yabgp.api'))
+    bad = [(f, n, d) for f, n, d in hits if (f.qualname, d) not in ALLOWED]
+    for f, n, d in bad[:3]:
+        key = 'rest-state:%s:%s' % (f.qualname, d.split(' ')[-1][:40])
+        rep.bad(rule, key, file=f.file, line=n.lineno, func=f.qualname,
+                found='%s %s: a module-level copy of peer configuration / session state outlives the moment it was '
+                      'taken (capabilities learnt from the OPEN, a new protocol object after a reconnect are never '
+                      'seen)' % (f.qualname, d), expected='read cfg.CONF.bgp.running_config at every request', key=key)
+    if not bad:
+        rep.ok(rule, 'rest-state', found='%d functions of yabgp.api, none keeps module-level state' % nfun)
+    rep.floor(rule, 'REST functions scanned', nfun, 25)
+
+
 def check(prog, rep, tier):
     rep.rule('R17.a', 'name closure: every text name ExtCommunity.parse renders is translated by both REST views '
                       '(explicit branch or table) to codes ExtCommunity.construct encodes; the name tables are '
@@ -129,8 +145,15 @@ def check(prog, rep, tier):
                       'every value octet in which the encoder places a given value')
     rep.rule('R17.g', 'field boundaries: no comparison in the community codecs or the REST recombination splits a range '
                       'between 2**k - 2 and 2**k - 1 (the largest value of a field must be on the fitting side)')
+    rep.rule('R17.i', 'the REST layer reads live peer state: no function of yabgp.api keeps a module-level copy of configuration or '
+                      'session objects (the peer capabilities the recombination consults are filled in when the OPEN '
+                      'arrives; a copy taken earlier never sees them)')
     rep.rule('R17.h', 'unsigned wire: no signed struct code in the community codecs (traffic-rate float excepted by '
                       'its own code f)')
+    rest_keeps_no_copies(prog, rep, 'R17.i')
+    common.const_key_lookups(prog, rep, 'R17.a', lambda fn: fn.module.name in (
+        'yabgp.message.attribute.extcommunity', 'yabgp.message.attribute.community',
+        'yabgp.message.attribute.largecommunity'), 8)
     rep.assumptions += ['float rounding of traffic-rate and numeric ranges are not decided']
     cm = prog.module(CONS)
     STR = prog.fold(cm.assigns['BGP_EXT_COM_STR_DICT'], cm)
